@@ -118,6 +118,8 @@ pub fn gen_absdb(rng: &mut Rng, case: u64, cfg: &AbsCfg, force: Option<&'static 
     }
     let size1 = opt(rng, "int-size-1", 1, 5);
     let wide = opt(rng, "32-columns", 1, 12);
+    // more columns than the library itself creates (only when asked for: the C09 seeds)
+    let over_wide = force == Some("40-columns");
     let big_cell = opt(rng, "big-cell-string", 1, 15);
     let n_tables = if force.is_some() { 1 + rng.usize(cfg.max_tables) } else { rng.usize(cfg.max_tables + 1) };
     let mut tables: Vec<AbsTable> = Vec::new();
@@ -129,7 +131,10 @@ pub fn gen_absdb(rng: &mut Rng, case: u64, cfg: &AbsCfg, force: Option<&'static 
     };
     for ti in 0..n_tables {
         let tname = format!("Tab{}_{}", ti, tok());
-        let ncols = if wide && ti == 0 {
+        let ncols = if over_wide && ti == 0 {
+            tags.push("40-columns");
+            33 + rng.usize(8)
+        } else if wide && ti == 0 {
             tags.push("32-columns");
             32
         } else {
